@@ -1256,7 +1256,12 @@ def search(ctx):
     # (3) Jacobian sparsity covers the numerical dependencies of the real residual function
     for k in range(12 if thorough else 3):
         room = gen_room(rng, nbs=rng.randint(2, 4), ncf=rng.randint(3, 6))
-        bad = sparsity_violations(rng, room)
+        try:
+            bad = sparsity_violations(rng, room)
+        except Exception as e:
+            ctx.witness('sparsity-exception', 'building jac_sparsity / evaluating the residual raised %s on a valid room' % type(e).__name__,
+                        {'room': room}, message=str(e)[:200])
+            continue
         ctx.count('search:sparsity')
         if bad:
             ctx.witness('sparsity-missing-mark', 'a residual row depends on a parameter that jac_sparsity does not mark', {'room': room}, entries=bad[:10])
